@@ -100,7 +100,7 @@ EXPECTED_PROBES = [
     "probe.batch_of_one_with_timeout_processed_at_once",
     "probe.shift_boundary_truncates_below_float", "probe.gate_time_truncates_below_float",
     "probe.batch_timeout_truncates_below_float", "probe.raise_at_truncated_boundary_with_backlog",
-    "probe.zero_capacity_queue", "probe.outside_change_before_run", "probe.outside_change_while_paused", "probe.outside_limit_raised_under_backlog",
+    "probe.zero_capacity_queue", "probe.gate_touching_intervals", "probe.gate_overlapping_intervals", "probe.outside_change_before_run", "probe.outside_change_while_paused", "probe.outside_limit_raised_under_backlog",
     "probe.outside_grace_ended_by_trigger", "probe.policy_purge_removed", "probe.policy_purge_left_3plus", "probe.policy_query", "probe.pipeline_purge_removed",
 ]
 SHRINK_SKIP = ("kind", "type", "model", "mode", "flow", "flow_weights", "max_p", "weight", "prob", "op")
@@ -229,10 +229,13 @@ def gen_stage(rng, kind, serial, avoid_shift, idx=0):
             return {"kind": kind, "ms": True, "schedule": [[ts[i], ts[i + 1]] for i in range(0, len(ts), 2)],
                     "initially_open": rng.random() < 0.3, "qcap": rng.choice([0, 0, 1, 2, 3])}
         sched, t = [], rng.randint(0, 6)
-        for _ in range(rng.randint(0, 3)):
-            d = rng.randint(1, 10)
+        chain = rng.random() < 0.5          # back-to-back windows: the close of one interval is the open of the next
+        for _ in range(rng.randint(0, 4)):
+            d = rng.choice([0, 1, 2, 3]) if rng.random() < 0.15 else rng.randint(1, 10)
             sched.append([t, t + d])
-            t += d + rng.randint(0, 6)
+            gap = 0 if chain and rng.random() < 0.7 else rng.choice([0, rng.randint(1, 6), rng.randint(1, 6),
+                                                                     -rng.randint(0, d)])   # touching, apart, overlapping
+            t = max(0, t + d + gap)
         return {"kind": kind, "schedule": sched, "initially_open": rng.random() < 0.5, "qcap": rng.choice([0, 0, 1, 2, 3])}
     raise ValueError(kind)
 
